@@ -1,4 +1,5 @@
 import Pms.Props.C18
+import Pms.Props.C18Mod
 
 #print axioms Pms.Purity.C18_sound
 #print axioms Pms.Purity.C18_interleaving
@@ -7,3 +8,5 @@ import Pms.Props.C18
 #print axioms Pms.Gen.Purity.C18_all_routines
 #print axioms Pms.Gen.Purity.C18_registry
 #print axioms Pms.Gen.Purity.C18_hidden_state
+#print axioms Pms.ModShape.C18_module_shape
+#print axioms Pms.ModShape.C18_body_shape
